@@ -107,10 +107,10 @@ Section ColorProofs.
   Qed.
 
   Lemma valid_gradient_stops c :
-    valid_color gid css_ok c = true -> is_gradient c = true ->
+    valid_color_pinned gid css_ok c = true -> is_gradient c = true ->
     exists g, parse_gradient gid c = Some g /\ forallb (fun s => css_ok (st_color s)) (g_stops g) = true.
   Proof.
-    unfold valid_color. intros H G. rewrite G in H.
+    unfold valid_color_pinned. intros H G. rewrite G in H.
     destruct (parse_gradient gid c) as [g|]; [|discriminate]. exists g. auto.
   Qed.
 End ColorProofs.
@@ -232,15 +232,15 @@ Section GradientProofs.
     cbn [forallb]. unfold attr_ok. cbn [fst snd]. rewrite Hid, A, B, C, D. reflexivity.
   Qed.
 
-  (* ---- the repaired code: escaping at the sink makes every gradient record safe ---- *)
+  (* ---- the code since /repo commit cdd480e12: escaping at the sink makes every gradient record safe ---- *)
   Lemma stops_ok_fixed total : forall ss i, stops_ok pct escape_text total i ss = true.
   Proof.
     induction ss as [|s ss IH]; intro i; [reflexivity|].
     cbn [stops_ok]. rewrite !escape_text_val_ok, IH. reflexivity.
   Qed.
 
-  Theorem gradient_svg_safe_fixed g :
-    tokenize (gradient_to_svg_fixed pct deg g) = Some (gradient_tokens pct deg escape_text g)
+  Theorem gradient_svg_safe g :
+    tokenize (gradient_to_svg pct deg g) = Some (gradient_tokens pct deg escape_text g)
     /\ balanced (gradient_tokens pct deg escape_text g) [] = true.
   Proof.
     split; [|apply gradient_tokens_balanced].
@@ -248,7 +248,7 @@ Section GradientProofs.
     rewrite lin_attrs_ok by apply escape_text_val_ok. rewrite stops_ok_fixed. reflexivity.
   Qed.
 
-  (* ---- the pinned code, guarded ---- *)
+  (* ---- historical: the code before cdd480e12 (no escaping), guarded ---- *)
   Hypothesis H_pct : forall i n, val_ok (pct i n) = true.
 
   Lemma stops_ok_pinned total : forall ss i,
@@ -262,12 +262,12 @@ Section GradientProofs.
     unfold offset_of. destruct (st_pos s); [rewrite H_pct|rewrite Hp1]; reflexivity.
   Qed.
 
-  Theorem gradient_svg_safe_guarded (gid : str -> str) (css_ok : str -> bool) c g :
+  Theorem pinned_gradient_svg_safe_guarded (gid : str -> str) (css_ok : str -> bool) c g :
     (forall s, val_ok (gid s) = true) ->
     (forall s, css_ok s = true -> val_ok s = true) ->
-    valid_color gid css_ok c = true -> is_gradient c = true -> parse_gradient gid c = Some g ->
+    valid_color_pinned gid css_ok c = true -> is_gradient c = true -> parse_gradient gid c = Some g ->
     forallb (fun s => val_ok (st_pos s)) (g_stops g) = true ->
-    tokenize (gradient_to_svg pct deg g) = Some (gradient_tokens pct deg id_esc g)
+    tokenize (gradient_to_svg_pinned pct deg g) = Some (gradient_tokens pct deg id_esc g)
     /\ balanced (gradient_tokens pct deg id_esc g) [] = true.
   Proof.
     intros Hgid Hcss Hv Hg Hp Hpos. split; [|apply gradient_tokens_balanced].
@@ -287,7 +287,7 @@ Section GradientProofs.
   Qed.
 End GradientProofs.
 
-(* ---- the unguarded statement is false on the faithful model ---- *)
+(* ---- historical: on the model of the code before cdd480e12 the unguarded statement is false ---- *)
 
 Require Import Coq.Strings.String.
 Definition w_red : str := Eval vm_compute in lit "red"%string.
@@ -299,18 +299,26 @@ Definition w_pct : nat -> nat -> str := fun _ _ => p100.
 Definition w_gid_text : str := Eval vm_compute in lit "grad-0"%string.
 Definition w_gid : str -> str := fun _ => w_gid_text.
 
-Theorem gradient_svg_safe_refuted :
+Theorem pinned_gradient_svg_safe_refuted :
   forall css_ok : str -> bool, css_ok w_red = true -> css_ok w_blue = true ->
-    valid_color w_gid css_ok w_witness = true /\ is_gradient w_witness = true
+    valid_color_pinned w_gid css_ok w_witness = true /\ is_gradient w_witness = true
     /\ exists g, parse_gradient w_gid w_witness = Some g
-                 /\ tokenize (gradient_to_svg w_pct (fun _ => None) g) = None
-                 /\ contains w_script (gradient_to_svg w_pct (fun _ => None) g) = true.
+                 /\ tokenize (gradient_to_svg_pinned w_pct (fun _ => None) g) = None
+                 /\ contains w_script (gradient_to_svg_pinned w_pct (fun _ => None) g) = true.
 Proof.
   intros css_ok Hr Hb.
   assert (P : exists g, parse_gradient w_gid w_witness = Some g) by (eexists; vm_compute; reflexivity).
   destruct P as [g P]. split; [|split; [vm_compute; reflexivity|exists g]].
-  - unfold valid_color. replace (is_gradient w_witness) with true by (vm_compute; reflexivity).
+  - unfold valid_color_pinned. replace (is_gradient w_witness) with true by (vm_compute; reflexivity).
     rewrite P. vm_compute in P. inversion P; subst g. cbn [g_stops forallb st_color].
     change [114; 101; 100] with w_red. change [98; 108; 117; 101] with w_blue. rewrite Hr, Hb. reflexivity.
   - split; [exact P|]. vm_compute in P. inversion P; subst g. split; vm_compute; reflexivity.
+Qed.
+
+Lemma witness_rejected_now : forall css_ok : str -> bool, valid_color w_gid css_ok w_witness = false.
+Proof.
+  intro css_ok. unfold valid_color. replace (is_gradient w_witness) with true by (vm_compute; reflexivity).
+  assert (P : exists g, parse_gradient w_gid w_witness = Some g) by (eexists; vm_compute; reflexivity).
+  destruct P as [g P]. rewrite P. vm_compute in P. inversion P; subst g.
+  cbn [g_stops forallb st_color st_pos]. destruct (css_ok [114; 101; 100]); reflexivity.
 Qed.
